@@ -37,6 +37,7 @@ TraceNext ==
      CASE ev.e = "Reset" -> ResetA(ev)
        [] ev.e = "Step" -> Next /\ ProjOK(ev)
        [] ev.e = "FreeSub" -> FreeSubOK(ev) /\ UNCHANGED vars
+       [] ev.e = "Deep" -> ev.iter = ev.n /\ ev.freed = ev.n /\ ev.ok = 1 /\ UNCHANGED vars    \* very deep chains: every node once, children first (driver tallies)
        [] OTHER -> FALSE
 TraceSpec == TraceInit /\ [][TraceNext]_<<vars, ti>>
 TraceAccepted ==
